@@ -133,7 +133,7 @@ def cached_object(v, eff, glob, alloc_name):
                 scan(x["body"], conds)
             elif x["e"] in ("loop", "while"):
                 scan(x["body"], conds + [("unk",)])
-            elif x["e"] == "store" and x["lv"] == glob:
+            elif x["e"] == "store" and x["lv"] == glob and not x.get("static_init"):
                 fills.append((x, conds))
     scan(eff, [])
     if len(fills) != 1 or len(fills[0][1]) != 1:
